@@ -134,8 +134,9 @@ class GotranODECodePrinter(BaseGotranODECodePrinter):
         return text
 
     def print_states(self) -> str:
+        # every declaration of every component (a state may be declared in several)
         d: dict[tuple[str, ...], list[atoms.State]] = defaultdict(list)
-        for state in self.ode.states:
+        for state in _declarations(self.ode, "states"):
             d[state.components].append(state)
 
         text = ""
@@ -147,7 +148,7 @@ class GotranODECodePrinter(BaseGotranODECodePrinter):
 
     def print_parameters(self) -> str:
         d: dict[tuple[str, ...], list[atoms.Parameter]] = defaultdict(list)
-        for parameter in self.ode.parameters:
+        for parameter in _declarations(self.ode, "parameters"):
             d[parameter.components].append(parameter)
 
         text = ""
@@ -174,6 +175,14 @@ class GotranODECodePrinter(BaseGotranODECodePrinter):
             text += "\n\n"
 
         return text
+
+
+def _declarations(ode, kind: str) -> list:
+    """The declared atoms of all components, each one once, sorted by name"""
+    seen = set()
+    for component in ode.components:
+        seen |= getattr(component, kind)
+    return sorted(seen, key=lambda x: (x.name, x.components))
 
 
 def start_odeblock(case: str, names: tuple[str, ...] = (), is_expression: bool = False):
